@@ -386,9 +386,14 @@ class Case:
         self.proj = proj          # projection applied to the model output (the property's observable)
 
 
+CURRENT = None        # the Result of the running check (for the entry script's last-resort reporting)
+
+
 class Result:
     def __init__(self, prop, tier, seed):
         self.prop, self.tier, self.seed = prop, tier, seed
+        global CURRENT
+        CURRENT = self
         self.t0 = time.time()
         self.cases = 0
         self.distinct = set()
